@@ -40,7 +40,7 @@ def run(tier="quick", replay=None, merge=True):
             ok, what, paths = c01conc.build()
     except RuntimeError as e:
         print("INTERNAL: " + str(e)); return 2
-    cov = {"scenarios": [], "tie_broken": [], "level_of_this_part": "exploration (no Coq model of this race)"}
+    cov = {"scenarios": [], "tie_broken": [], "level_of_this_part": "theorems for every schedule over the interleaving model coq/ConcStore.v + regenerated facts about the critical sections (GenStore.v) + exploration of the real handlers"}
     viol = []
     if not ok:
         if what.startswith("INTERNAL"):
@@ -76,13 +76,21 @@ def run(tier="quick", replay=None, merge=True):
                     viol.append({"kind": "property", "replay": rp, "what": name, "schedule": ex.choices})
         cov.update({"traces_validated_against_impl": nexec, "evaluations": nexec,
                     "rule": "one case = one complete schedule of the race on the instrumented real handlers; every lock acquisition of the racing requests is a scheduling point"})
+    info, tie = ({"ok": True, "theorems": [], "examples": []}, None) if replay else C.store_clause_info("C13store")
+    if tie:
+        cov["tie_broken"].append(tie)
+        if not viol:
+            rp = C.write_replay(PID, "replay-c13store-unchecked.json", {"property": PID, "unchecked": tie,
+                                "searched": "every schedule of the race scenarios within the preemption bound on the instrumented real handlers: no failing schedule"})
+            viol.append({"kind": "tie", "replay": rp, "what": tie})
     rc = 0
     for v in viol:
         C.violation(PID, v["replay"], no_input=(v["kind"] != "property")); rc = 1
         break
-    info = {"ok": True, "theorems": [], "examples": []}
-    assumptions = ["concurrent reading (beyond the property's quantifier): decided by bounded exploration only (preemption bound 2, 3 in the thorough tier for two racers)"]
-    tb = ["tools/instrument + verifsched + harness/l3v (see C01's concurrent clause); the verdict of this part reads the unsubscriber's recorded message stream directly (checks/c13conc.py), no extracted model is involved"]
+    assumptions = ["concurrent reading (beyond the property's quantifier): for the model, every schedule (Properties/ConcStore.v: C13_conc_no_relay_after_unsub_response, under the hypotheses that a "
+                   "participant's subscribe / unsubscribe / response come from its own connection and the response follows the unsubscription); on the real handlers, bounded exploration "
+                   "(preemption bound 2, 3 in the thorough tier for two racers)"]
+    tb = ["tools/instrument + verifsched + harness/l3v (see C01's concurrent clause); the verdict on real executions reads the unsubscriber's recorded message stream directly (checks/c13conc.py), no extracted model is involved; tools/storefacts (Go AST -> coq/GenStore.v: Notify calls its handler inside the subscription lock, (un)subscriptions are single exclusive critical sections, callers of Notify relay inside the callback, the unsubscribe response follows Unsubscribe), fails closed"]
     if merge:
         err = C.merge_evidence(PID, "concurrent_reading", cov, info, assumptions, tb, rc, time.time() - t0, "", [dict(v) for v in viol])
         if err:
